@@ -6,7 +6,14 @@ branch / force-push a source branch) is executed on the bare remote immediately 
 re-run in a forked child from a snapshot of the world taken at the start of the job (directory copy + fork), so
 every placement starts from exactly the same state. Oracles on the real remote after every job (interleaved or
 not); the plan of every uninterrupted job (its pushes, in order) and the outcome of every interleaved job are
-compared with the model (`C08 ops`, `C08 sched`)."""
+compared with the model (`C08 ops`, `C08 sched`).
+
+Scripted block (every run, `scripted_cases`): the delete-branch job against the three states of the archive tag.
+Cascade with a stabilization, development and hotfix branch, queues on / off; the archive tag of the branch (`<version>`, `<version>.archived_hotfix_branch`) is pushed by hand nowhere /
+on the tip of the branch (= a deletion that was interrupted between the push of the tag and the removal of the
+branch) / on another commit; then the real `delete_branch` job runs (with the same interleavings and refusals as
+every job) and its ordered remote operations are compared with `C08 opst <none|tip|other>` — full job / deletion
+completed without a second tag / nothing at all —, the oracle demanding a tag ON THE DELETED TIP."""
 import json
 import os
 import re
@@ -25,6 +32,9 @@ PID = 'C08'
 TABLES = ['GitFlags']
 LEAN_TARGETS = ['BertE.Props.C08']
 ASSUMPTIONS = [
+    'the delete-branch job is modelled once its other checks passed (destination branch that exists, no stabilization branch '
+    'alive for a development branch, nothing queued on it); the archive tags are those the clone of the job sees: no tag is '
+    'moved or removed by somebody else while the job runs (a resumed deletion relies on the tag it found on the tip)',
     'third parties write only refs that are neither destination branches nor w/, q/ branches (premise of GitWaterFlow); '
     'the schedule clause considers ONE third-party action per job, placed immediately before one of its pushes',
     "the remote's reaction to a push (creation or fast-forward only, all-or-nothing with --atomic, --prune deletes remote "
@@ -38,7 +48,9 @@ TRUSTED = [
     'hand-written model lean/BertE/Model/Git.lean, Flow.lean, FlowExt.lean, tied to the code by the differential run of every '
     'event (refs, tip classes, ancestry, outcome), by the comparison of the ordered list of `git push` commands of every '
     'job with the plan of the model, and by the comparison of every interleaved run with the model',
-    'harness/tables/gitflags.py (AST extraction of push templates, Branch.remove guard, remove() callers, delete_branch call order)',
+    'harness/tables/gitflags.py (AST extraction of push templates, Branch.remove guard, remove() callers, delete_branch call '
+    'order with the `if` tests around every call, the assignments of its flag `archived` and the shape of the check that '
+    'precedes `archived = True`: rev-list of the tag compared with the tip of the checked-out branch, else raise)',
     'harness/histories.py, harness/system.py (generator, mock git host, real git), harness/c08.py (fork/snapshot scheduler, '
     'wrapper around bert_e.lib.git.cmd that recognises `git push`)',
 ]
@@ -340,8 +352,54 @@ def _child_sched(run, ev, orig, k, action, before, tags_before, label):
 _ORIG_EXECUTE = H.Run.execute
 
 
+class _NoRepo:
+    """`branch_factory` only parses the name"""
+    def cmd(self, *a, **k):
+        raise RuntimeError('no repository')
+
+
+def archive_tag_name(branch):
+    """the name of the archive tag of a destination branch, from the code's own parsing of the branch name
+    (the suffix for hotfix branches is the literal of jobs/delete_branch.py; the scripted block checks the name
+    against the tag that the real job pushes)"""
+    from bert_e.workflow.gitwaterflow.branches import branch_factory, HotfixBranch
+    b = branch_factory(_NoRepo(), branch)
+    return b.version + ('.archived_hotfix_branch' if isinstance(b, HotfixBranch) else '')
+
+
+def push_archive_tag(w, branch, where):
+    """by hand, as an administrator would: the archive tag of `branch` on its tip / on the root commit"""
+    if where == 'none':
+        return None
+    tip = w.refs()[branch]
+    sha = tip if where == 'tip' else git(w.bare, 'rev-list', '--max-parents=0', tip).split()[0]
+    name = archive_tag_name(branch)
+    w._fetch()
+    git(w.work, 'tag', '-f', name, sha)
+    git(w.work, 'push', '-q', 'origin', 'refs/tags/%s' % name)
+    return name
+
+
+def tag_state(branch, refs, tags):
+    """the state of the archive tag of `branch` as the model's `C08 opst` names it"""
+    try:
+        name = archive_tag_name(branch)
+    except Exception:
+        return None
+    if branch not in refs:
+        return None
+    if name not in tags:
+        return 'none'
+    return 'tip' if tags[name] == refs[branch] else 'other'
+
+
 def _execute(run, ev):
     """`Run.execute` with the schedule enumeration in front of every Bert-E job"""
+    if HOOK['on'] and ev.get('op') == 'c08_tag':      # scripted block: an archive tag pushed by hand
+        if ev['branch'] not in run.w.refs():
+            return 'skip', None
+        push_archive_tag(run.w, ev['branch'], ev['where'])
+        return 'host', None
     if not HOOK['on'] or ev.get('op') not in JOB_OPS:
         return _ORIG_EXECUTE(run, ev)
     w = run.w
@@ -349,6 +407,8 @@ def _execute(run, ev):
     tags_before = w.tags()
     st = {'ev': ev, 'before': before, 'tags_before': tags_before, 'child_failures': [], 'log': [],
           'prefix': list(run.items), 'sha2id': dict(run.sha2id), 'sched': []}
+    if is_delete_job(ev):
+        st['tag_state'] = tag_state(ev['branch'], before, tags_before)
     _LAST[id(run)] = st
     budget = HOOK.get('budget')
     snap = w.dir.rstrip('/') + '.snap'
@@ -400,6 +460,14 @@ def compare_with_model(model, trace, jobs):
     lines, meta = [], []
     for st in jobs:
         rec = by_ev.get(id(st['ev']))
+        if st['ev'].get('scripted') and is_delete_job(st['ev']) and rec is not None and st.get('tag_state'):
+            # scripted block: the checks of the job other than the archive tag pass by construction; the plan is
+            # compared whatever the status (a refusal = no operation)
+            hist = ';'.join(st['prefix'] + ['rmbranch ' + H.dest_code(st['ev']['branch'])])
+            real_ops = [push_code(e[1]) for e in st['log'] if e[0] == 'push']
+            lines.append('C08 opst %s %s' % (st['tag_state'], hist))
+            meta.append(('opst', st, rec, real_ops, hist))
+            continue
         if rec is None or 'items' not in rec or len(rec['items']) != 1 or not _single_job(st):
             continue
         hist = ';'.join(st['prefix'] + rec['items'])
@@ -415,6 +483,22 @@ def compare_with_model(model, trace, jobs):
     for (kind, st, rec, real_ops, hist), ans in zip(meta, answers):
         na += 1
         model_ops = [o for o in ans.split(';') if o]
+        if kind == 'opst':
+            branch, state = st['ev']['branch'], st['tag_state']
+            if rec.get('status') in OTHER_CHECKS and not real_ops:
+                continue      # a check that the model does not look at refused the job before its first operation
+            if _norm_ops(model_ops) != _norm_ops(real_ops):
+                dis.append({'input': {'history': hist, 'branch': branch, 'tag_state': state}, 'real': real_ops,
+                            'model': model_ops, 'status': rec.get('status'),
+                            'why': 'delete_branch with the archive tag %s: the pushes of the job differ from the '
+                                   'operations of the model' % {'none': 'absent', 'tip': 'on the tip of the branch',
+                                                                'other': 'on another commit'}[state]})
+            pushed = [push_argv(e[1])[-1] for e in st['log'] if e[0] == 'push' and push_code(e[1]).startswith('tag:')]
+            if pushed and pushed != [archive_tag_name(branch)]:
+                dis.append({'input': {'history': hist, 'branch': branch, 'tag_state': state}, 'real': pushed,
+                            'model': [archive_tag_name(branch)],
+                            'why': 'the archive tag that the job pushes is not the one the scripted block looks at'})
+            continue
         if _norm_ops(model_ops) != _norm_ops(real_ops):
             dis.append({'input': {'history': hist}, 'real': real_ops, 'model': model_ops,
                         'why': 'plan: the pushes of the job differ from the operations of the model'})
@@ -440,7 +524,7 @@ def compare_with_model(model, trace, jobs):
                 arg = '-'
             lines2.append('C08 sched %d %s %s %s %s' % (out['k'], maction, sc['name'], arg, hist))
             meta2.append((st, out, hist))
-    for (st, out, hist), ans in zip(meta2, model.ask(lines2)):
+    for (st, out, hist), ans in zip(meta2, model.ask(lines2) if lines2 else []):
         nb += 1
         if ans.startswith('bad-op'):
             dis.append({'input': {'history': hist, 'k': out['k'], 'action': out['action']}, 'real': None, 'model': ans})
@@ -504,6 +588,62 @@ def _work(args):
     return summarize(i, mode, cfg, evs, out, jobs, sched, na, nb, dis)
 
 
+# Statuses of a delete_branch job that was refused by a check OTHER than the archive tag, before any remote operation
+# (the model describes the job "once its checks passed"). DeprecatedStabilizationBranch: with queues on the job builds
+# the queue collection, whose cascade refuses a stabilization branch x.y.z as soon as a tag x.y.z exists — so the
+# interrupted deletion of a stabilization branch cannot be completed while queues are on (reported to the coordinator;
+# nothing is touched, the property is not concerned).
+OTHER_CHECKS = {'DeprecatedStabilizationBranch'}
+SCRIPT_DESTS = ['stabilization/4.3.18', 'development/4.3', 'development/5.1', 'development/10.0', 'hotfix/4.2.17']
+SCRIPT_TAGS = ['4.3.17', '4.2.17.0']
+SCRIPT_BRANCHES = ('development/10.0', 'stabilization/4.3.18', 'hotfix/4.2.17')
+TAG_STATES = ('none', 'tip', 'other')
+
+
+def scripted_cases():
+    """(label, config, events): delete_branch x {development without stabilization, stabilization, hotfix branch}
+    x {queues on, off} x {archive tag absent, on the tip, on another commit}.
+    (A state with `q/<v>` present is not scripted: `has_version_queued_prs` answers True as soon as `q/<v>` exists —
+    an empty list of queued pull requests `is not None` —, so the real job refuses there before its first operation;
+    the model's deletion of `q/<v>` over-approximates the code.)"""
+    from .system import Config
+    cases = []
+
+    def cfg(use_queue):
+        return Config(SCRIPT_DESTS, SCRIPT_TAGS, use_queue=use_queue, skip_queue=False, no_octopus=False,
+                      create_prs=False, create_branches=True, options=['bypass_jira_check', 'bypass_build_status'])
+    for use_queue in (True, False):
+        for b in SCRIPT_BRANCHES:
+            for state in TAG_STATES:
+                evs = [{'op': 'c08_tag', 'branch': b, 'where': state},
+                       {'op': 'job', 'kind': 'delete_branch', 'branch': b, 'scripted': True}]
+                cases.append(('%s:%s:%s' % ('queue' if use_queue else 'noqueue', b.split('/')[0], state),
+                              cfg(use_queue), evs))
+    return cases
+
+
+def _work_scripted(args):
+    n, use_model, base = args
+    label, cfg, evs = scripted_cases()[n]
+    try:
+        out, jobs, sched, na, nb, dis = run_one(cfg, evs, use_model, base, refuse_all=False)
+    except Exception:
+        return {'i': 'scripted:' + label, 'cfg': cfg.as_dict(), 'events': evs, 'error': traceback.format_exc()[-3000:]}
+    o = summarize('scripted:' + label, 'scripted', cfg, evs, out, jobs, sched, na, nb, dis)
+    st = [j for j in jobs if j['ev'] is evs[-1]]
+    status = [r['status'] for r in out['trace'] if r['event'] is evs[-1]]
+    real_ops = [push_code(e[1]) for e in st[0]['log'] if e[0] == 'push'] if st else None
+    o['stats']['scripted:%s' % label] = 1
+    o['stats']['scripted-delete:%s:%s:%s' % (st[0].get('tag_state') if st else 'not-run', (status or ['?'])[0],
+                                             ','.join(x.split(':')[0] for x in real_ops or []) or 'no-push')] = 1
+    o['scripted'] = {'case': label, 'tag_state': st[0].get('tag_state') if st else None, 'status': (status or [None])[0],
+                     'ops': real_ops}
+    if not st or st[0].get('tag_state') != label.split(':')[-1]:
+        o['model_dis'].append({'input': {'case': label}, 'real': o['scripted'], 'model': None,
+                               'why': 'scripted block: the delete_branch job did not run in the tag state of the case'})
+    return o
+
+
 def summarize(i, mode, cfg, evs, out, jobs, sched, na, nb, dis):
     stats = dict(out['stats'])
     for o in sched:
@@ -535,7 +675,9 @@ RULE = ('seeded histories of C01 (8 cascade templates x queue / queue+skip / no 
         'it issues x {create a new branch, push a commit on a source branch, force-push (amend) a source branch}: the job is '
         're-run from a snapshot with the action executed on the bare remote immediately before that push; additionally '
         '"the server refuses this push" for every push of delete_branch jobs and of the corpus (every push of every job in the '
-        'thorough tier); oracles after every '
+        'thorough tier); plus the scripted block: delete_branch of a development / stabilization / hotfix branch x queues on / '
+        'off x archive tag {absent, on the tip of the branch, on another commit}, plan compared '
+        'with the model (full job / deletion completed without a second tag / refused); oracles after every '
         'job: destinations fast-forward only / deleted only by delete_branch with an archive tag on the tip; foreign refs as the '
         'third party left them; no forcing token in any `git push` argv; old destination tips reachable from branches and tags; '
         'distinct = (action, job status, next pushes) classes of interleavings + histories in which Bert-E pushed')
@@ -571,6 +713,9 @@ def collect(res, outs):
             f = dict(f)
             f['input'] = {'cfg': o['cfg'], 'events': o['events'][:f.get('at', len(o['events'])) + 1]}
             res.oracle_failures.append(f)
+        if o.get('scripted'):
+            res.distinct.add(json.dumps(['scripted', o['scripted']['case']]))
+            res.extra.setdefault('scripted_delete_branch', []).append(o['scripted'])
         if len(res.samples) < 4 and o['n_sched']:
             res.samples.append({'cfg': o['cfg'], 'events': o['events'][:5], 'statuses': o['statuses'][:6],
                                 'interleavings': o['n_sched'], 'classes': o['sched_cases'][:4]})
@@ -605,8 +750,11 @@ def correspondence(ctx):
     use_model = ctx.model is not None
     outs = replay_corpus(use_model, base)
     with Pool(common.NCPU) as pool:
-        outs += pool.map(_work, [(ctx.seed, i, use_model, base, None, ctx.tier != 'quick') for i in range(n)],
-                         chunksize=1)
+        scripted = pool.map_async(_work_scripted, [(k, use_model, base) for k in range(len(scripted_cases()))],
+                                  chunksize=1)
+        rnd = pool.map(_work, [(ctx.seed, i, use_model, base, None, ctx.tier != 'quick') for i in range(n)],
+                       chunksize=1)
+        outs += scripted.get() + rnd
     return collect(res, outs)
 
 
